@@ -6,6 +6,7 @@ import (
 	"go/token"
 	"go/types"
 	"os"
+	"sort"
 	"strings"
 
 	"golang.org/x/tools/go/ssa"
@@ -250,6 +251,19 @@ func IsConstOf(c *types.Const) VPred {
 		k, ok := Strip(v).(*ssa.Const)
 		if !ok || k.Value == nil || c == nil {
 			return false
+		}
+		// a constant of a named type is not matched by a plain integer (or a constant of another named
+		// type) that happens to have the same value: `reason == 2` is not `cat == TopicCatP2P`
+		if nc, isNamed := c.Type().(*types.Named); isNamed {
+			if nk, ok := k.Type().(*types.Named); ok {
+				if !types.Identical(nk, nc) {
+					return false
+				}
+			} else if v.Type() != nil {
+				if _, vNamed := v.Type().(*types.Named); !vNamed && !types.Identical(v.Type().Underlying(), nc.Underlying()) {
+					return false
+				}
+			}
 		}
 		return constant.Compare(k.Value, token.EQL, c.Val())
 	}
@@ -779,6 +793,14 @@ func GuardedBy(fn *ssa.Function, sink ssa.Instruction, guards ...Guard) (bool, [
 	return liftGuarded(fn, sink, 0, func(f *ssa.Function, at ssa.Instruction) (bool, []int) {
 		cut, counts := PassEdges(f, guards...)
 		r := ReachBlocks(f, nil, cut)
+		if liftDebug {
+			var es []string
+			for e := range cut {
+				es = append(es, fmt.Sprintf("%d->%d", e.From.Index, e.From.Succs[e.Idx].Index))
+			}
+			sort.Strings(es)
+			fmt.Fprintf(os.Stderr, "GUARDEDBY %s sinkblock=%d reach=%v counts=%v cut=%v\n", f.Name(), at.Block().Index, r[at.Block()], counts, es)
+		}
 		return !r[at.Block()], counts
 	})
 }
@@ -861,6 +883,9 @@ func liftGuarded(fn *ssa.Function, sink ssa.Instruction, depth int, check func(f
 		if !ok2 {
 			return false, counts
 		}
+		if liftDebug {
+			fmt.Fprintf(os.Stderr, "LIFT %s -> %s ok counts=%v\n", fn.Name(), cs.Caller.Name(), c2)
+		}
 		for i := range c2 {
 			if i < len(total) {
 				total[i] += c2[i]
@@ -869,6 +894,8 @@ func liftGuarded(fn *ssa.Function, sink ssa.Instruction, depth int, check func(f
 	}
 	return true, total
 }
+
+var liftDebug = os.Getenv("VERIF_LIFTDEBUG") != ""
 
 // Pos of an instruction, falling back to neighbours when the instruction has none.
 func InstrPos(in ssa.Instruction) token.Pos {
